@@ -141,10 +141,17 @@ struct Enc {
 }
 fn enc_sizes(tier: Tier) -> Vec<usize> {
     match tier {
-        Tier::Quick => (1..=9).collect(),
+        // 65 and 129: one more than a multiple of the plane alignment unit (32 u16 / 64 u8 samples):
+        // a chroma row of (w-1)/2 samples then fills its stride exactly, and one sample more is the
+        // next row or the end of the buffer
+        Tier::Quick => {
+            let mut v: Vec<usize> = (1..=9).collect();
+            v.extend([65, 129]);
+            v
+        }
         Tier::Thorough => {
             let mut v: Vec<usize> = (1..=12).collect();
-            v.extend([63, 64, 65]);
+            v.extend([63, 64, 65, 129, 257]);
             v
         }
     }
